@@ -2,6 +2,7 @@ import Ovldverif.Model.Json
 import Ovldverif.Model.JsonD
 import Ovldverif.Model.JsonF
 import Ovldverif.Model.JsonE
+import Ovldverif.Model.JsonG
 import Ovldverif.Spec.Types
 import Ovldverif.Spec.Resolve
 /-! Line-protocol driver: one JSON scenario per input line, one JSON result per output line. -/
@@ -148,6 +149,12 @@ def runE (j : Json) : Except String Json := do
       | none => "??"))))
   return Json.mkObj [("strategy", Json.str strat), ("res", Json.arr res.toArray), ("checks", toJson checks)]
 
+def runG (j : Json) : Except String Json := do
+  let cfg ← cfgOfJson j
+  let pool ← (← jArr (← jField j "args")).mapM argOfJson
+  let defs ← (← jArr (← jField j "defs")).mapM (defOfJson pool)
+  runGraph cfg pool defs (← jArr (← jField j "ops"))
+
 def runLine (line : String) : String :=
   match Json.parse line with
   | .error e => (Json.mkObj [("error", Json.str s!"parse: {e}")]).compress
@@ -159,6 +166,7 @@ def runLine (line : String) : String :=
       | "D" => runD j
       | "F" => runF j
       | "E" => runE j
+      | "G" => runG j
       | _ => throw s!"unknown layer {layer}"
     match r with
     | .ok v => v.compress
